@@ -4,7 +4,7 @@
    correspondence harness/props/c01.py only.
    Record kinds covered: SNV / MNV / INDEL on a linear transcript. *)
 From MoPep Require Import Model.Base Model.Rule Model.Digest Model.Spec Model.SpecStmt Gen.Bio Gen.Expasy
-                          Proofs.SpecProofs.
+                          Proofs.SpecProofs Model.W2F Model.SpecAlt Model.SpecAltStmt Proofs.SpecAltProofs.
 Open Scope Z_scope.
 
 (* The oracle's obliged set is exactly the property's statement (MustReport, Model/SpecStmt.v):
@@ -32,6 +32,20 @@ Theorem products_are_declarative_digest : forall x nf tail tr p,
   In p (products x nf tail tr) <-> Product x nf tail tr p.
 Proof. exact products_spec. Qed.
 Print Assumptions products_are_declarative_digest.
+
+(* ---- alt-translation flags (--selenocysteine-termination, --w2f-reassignment; Model/SpecAlt.v) ----
+   p is obliged under the flags  <->  some obliged haplotype has p among its products or -- flag on -- among
+   the Sec-terminated forms of its products (limits lifted for the untruncated product) or -- flag on -- among
+   the W>F images of either (AltForm, Model/SpecAltStmt.v), and p is no such form of a product of the
+   unmodified transcript, and p is not in the canonical pool. *)
+Theorem must_fl_sound_complete : forall fl x p, In p (must_set_fl fl x) <-> MustReportFl fl x p.
+Proof. exact must_fl_sound_complete_lemma. Qed.
+Print Assumptions must_fl_sound_complete.
+
+(* with both flags off the flagged oracle is the plain one *)
+Theorem flags_off_must : forall x p, In p (must_set_fl (mkFlags false false) x) <-> In p (must_set x).
+Proof. exact flags_off_must_lemma. Qed.
+Print Assumptions flags_off_must.
 
 (* Non-vacuity: a concrete transcript ATG GCT AAA GGT TGG CGT TAA with the SNV  GGT -> GAT  at
    position 10 obliges the peptide MAKDWR (trypsin, k = 1, no exception). *)
